@@ -27,7 +27,7 @@ FMT = '%Y%m%dT%H%M%S'
 
 RULE = ('self_sign / sign_req / derive_cert / new_cert with subjects EC P-256/384/521, RSA-2048, Ed25519 (and random key bits '
         'with lengths that put the packet length on 252/253/254/65535/65536, before and after the unused signature bytes are cut), '
-        'issuers: ECDSA P-256/384/521 (variable DER length), RSA-2048, Ed25519, HMAC, DigestSha256, null, no signer, and a synthetic '
+        'issuers: ECDSA P-256/384/521 (variable DER length), RSA-2048 and RSA with moduli of 1028 / 2050 bits (not a multiple of 8), Ed25519, HMAC, DigestSha256, null, no signer, and a synthetic '
         'signer sweeping 0<=actual<=reserved; key names as URI / wire / component list; issuer id as text (valid and malformed URI '
         'components) and as component; start times on year / leap-day / month / day boundaries, years 1000..9999 (and <1000, overflow), '
         'naive, UTC and fixed-offset zones (-12:00..+14:00, odd minutes); durations 0..20 years, negative, overflowing; clock '
@@ -136,7 +136,7 @@ def make_signer(keys, spec):
         return None, None, None
     if isinstance(spec, (list, tuple)):
         return P.Synthetic(spec[1], spec[2]), None, None
-    for label, sg, verify in keys.signers():
+    for label, sg, verify in keys.signers(only=spec):
         if label == spec:
             return sg, verify, getattr(sg, 'key_locator_name', None)
     raise KeyError(spec)
@@ -299,12 +299,14 @@ def new_signer_of(keys, label, comps):
     from ndn.security.signer.sha256_ecdsa_signer import Sha256WithEcdsaSigner
     from ndn.security.signer.sha256_rsa_signer import Sha256WithRsaSigner
     from ndn.security.signer.ed25519_signer import Ed25519Signer
-    verify = next(v for lb, _, v in keys.signers() if lb == label)
+    verify = next(v for lb, _, v in keys.signers(only=label) if lb == label)
     comps = [bytes(x) for x in comps]
     if label == 'hmac':
         return HmacSha256Signer(comps, keys.hmac_key), verify
     if label == 'rsa':
         return Sha256WithRsaSigner(comps, keys.rsa.export_key('DER')), verify
+    if label.startswith('rsa-'):
+        return Sha256WithRsaSigner(comps, keys.rsa_odd[int(label[4:])].export_key('DER')), verify
     if label == 'ed25519':
         return Ed25519Signer(comps, keys.ed.export_key(format='DER')), verify
     return Sha256WithEcdsaSigner(comps, keys.ec[label[len('ecdsa-'):]].export_key(format='DER')), verify
@@ -511,6 +513,9 @@ def one_case(ctx, M, keys, case, verbose=False, shared=None, history=None):
             return None
     elif r != 'ok':
         ctx.disagree(fn, 'implementation raises, model returns', case, m[1][0], repr(r))
+        if not isinstance(case['signer'], (list, tuple)):
+            ctx.violation(fn, 'issuance-raises', f'a legal request and a shipped issuer ({case["signer"]}), but issuance raises '
+                          f'{type(r).__name__} and no certificate is produced', case)
         return None
     given = b''.join(rec.blocks) if rec is not None and rec.blocks is not None else None
     if not is_err(m):
@@ -742,7 +747,7 @@ def rand_issuer(rng):
 
 
 SUBJECTS = ['P-256', 'P-384', 'P-521', 'rsa', 'ed25519']
-ISSUERS = ['ecdsa-P-256', 'ecdsa-P-384', 'ecdsa-P-521', 'rsa', 'ed25519', 'hmac', 'digest', 'null', None]
+ISSUERS = ['ecdsa-P-256', 'ecdsa-P-384', 'ecdsa-P-521', 'rsa', 'rsa-1028', 'rsa-2050', 'ed25519', 'hmac', 'digest', 'null', None]
 
 
 def rand_case(rng, fn=None, signer='?', pub=None):
